@@ -417,8 +417,11 @@ create_icf_block_hdr(struct isal_zstream *stream, uint8_t *start_in)
         /* Assumes that type 0 block has size less than 4G */
         block_start_offset = (stream->total_in - state->block_next);
         cur_in_processed = stream->next_in - start_in;
-        avail_output =
-                stream->avail_out + sizeof(state->buffer) - (stream->total_in - state->block_end);
+        /* What does not fit in the output waits in the internal buffer, next to
+         * the input already processed for the following block and the look
+         * ahead isal_deflate() has to be able to buffer behind it */
+        avail_output = stream->avail_out + sizeof(state->buffer) - ISAL_LOOK_AHEAD -
+                       (stream->total_in - state->block_end);
 
         /* A gzip/zlib header that has not been written yet comes out of the same
          * output space before the stored block does */
